@@ -27,13 +27,23 @@ def gen(rng, sc, n, capped=False):
             if it2 is not None:
                 add(mt, it2, 1)
                 break
+    if not capped:
+        # messages filled by copy_legal from a message of another type: the position order is that of the TARGET type
+        xl, xm = cc.gen_xcopy(rng, sc, max(30, n // 6))
+        lines += xl
+        for l in xl:
+            meta[l] = ('xcopy', xm[l])
     return lines, meta
 
 
 def make_oracle(sc, meta):
+    xo = cc.xcopy_oracle(sc, {l: v[1] for l, v in meta.items() if v[0] == 'xcopy'})
+
     def oracle(line, out):
         if line not in meta:
             return (None, None)
+        if meta[line][0] == 'xcopy':
+            return xo(line, out)
         mt, items = meta[line]
         if not out.startswith('wire '):
             return (False, None)
@@ -61,7 +71,7 @@ def run(res, replay=None):
                         'fields without a schema position (user-defined fields added with f8c -F; FieldTraits::getPos reports 0) are emitted first, in insertion order: excluded from the ordering clause',
                         'each Message object is encoded once (a second encode of the same object without setup_reuse() repeats BeginString/BodyLength/CheckSum: recorded in DESIGN.md as an API-usage finding outside the quantifier)',
                         'only FIX42UTEST is compiled and dumped']
-    res.cov['rule'] = ('schema-driven messages as in C01, each encoded from 1..3 different shuffled insertion orders; every message type with all optional fields; BodyLength at 99/100/101/999/1000/1001; '
+    res.cov['rule'] = ('schema-driven messages as in C01, each encoded from 1..3 different shuffled insertion orders; messages filled by copy_legal from a message of another type; every message type with all optional fields; BodyLength at 99/100/101/999/1000/1001; '
                        'oracle = stand-alone wire-format recogniser (frame, BodyLength, CheckSum, tag=value SOH, section order, position order, group shape) and byte equality with the position-ordered rendering; distinct by line')
     if not replay:
         gen_facts.generate(['schema_fix44'])
